@@ -500,13 +500,15 @@ def _mk14(args):
             data += P.item_bytes(P.item_readout(rng, nlines=2)) * 2
         if k % 3 == 0:      # a reader gets selected first, so that what follows reaches message_received(): good, almost good, noise, good
             from .drv_readers import almost_frames, almost_readouts
-            if k % 2 == 0:
+            if k % 12 in (0, 9):        # k % 12: 0 P1/payload, 3 HDLC/message, 6 HDLC/payload, 9 P1/message
                 good = P.item_bytes(P.item_readout(rng, nlines=2))
                 data = good + almost_readouts(rng, seed + k) + data + good
             else:
                 cfg = next((n.split(":")[1] == "1", n.split(":")[2] == "1") for n in names if n.startswith("HDLC"))
                 f = H.item_bytes(H.item_frame(rng, maxinfo=20, sizes=[3, 8]))
-                good = b"\x7e" + (H.stuff(f) if cfg[0] else f) + b"\x7e"
+                f0 = H.item_bytes(H.item_frame(rng, sizes=[0]))          # valid frame without information field: payload is None
+                enc = (lambda x: H.stuff(x)) if cfg[0] else (lambda x: x)
+                good = b"\x7e" + enc(f) + b"\x7e" + enc(f0) + b"\x7e"
                 data = good + almost_frames(rng, cfg) + data + good
         cuts = rng.choice(chunkings(rng, len(data), 4))
         out.append(record(variant, mk_readers(names), split(data, cuts), None, "free", "gen:c14", names))
